@@ -46,14 +46,16 @@ Definition sreport (ss : sstate) (i : nat) (rep : list (Z * Z)) : sstate :=
         (upd (p_touched ss) i (fun r a => if is_none (last_report rep a) then p_touched ss i r a else true))
         (upd (p_multi ss) i (p_multi ss i || has_dup (map fst rep)))
         (p_skip ss) (p_clock_ok ss).
-Definition sskip (c : cfg) (ss : sstate) (i : nat) (rep : list (Z * Z)) : sstate :=
-  mk_ss (p_regs ss) (p_dead ss) (p_world ss) (p_latest ss) (p_base ss) (p_touched ss) (p_multi ss)
-        (upd (p_skip ss) i (p_skip ss i || (is_mono (kind_of c i) && existsb (fun av => snd av <? 0) rep))) (p_clock_ok ss).
-
 (* a collection begins: every registered callback reports what the script says *)
 Definition sobserve (c : cfg) (ss : sstate) : sstate :=
-  fold_left (fun acc i => sskip c (sreport acc i (reports (p_regs ss) (p_world ss) i)) i (reports (p_regs ss) (p_world ss) i))
-            (seq 0 (ninstr c)) ss.
+  let rep := reports (p_regs ss) (p_world ss) in
+  mk_ss (p_regs ss) (p_dead ss) (p_world ss)
+        (fun i a => match last_report (rep i) a with Some v => Some v | None => p_latest ss i a end)
+        (p_base ss)
+        (fun i r a => if is_none (last_report (rep i) a) then p_touched ss i r a else true)
+        (fun i => p_multi ss i || has_dup (map fst (rep i)))
+        (fun i => p_skip ss i || (is_mono (kind_of c i) && existsb (fun av => snd av <? 0) (rep i)))
+        (p_clock_ok ss).
 (* reader r has been given its points: it is up to date *)
 Definition sgiven (ss : sstate) (r : nat) : sstate :=
   mk_ss (p_regs ss) (p_dead ss) (p_world ss) (p_latest ss)
